@@ -437,7 +437,9 @@ fn lint_repo() -> Vec<String> {
         "Condvar",
         "mpsc",
         "static mut",
-        "thread_local!",
+        // `thread_local!` itself is inside the seam (lib.rs routes it to the simulator's); only the
+        // fully qualified spelling escapes it
+        "std::thread_local",
         "lazy_static!",
         "std::thread",
         "Atomic",
@@ -463,7 +465,7 @@ fn lint_repo() -> Vec<String> {
                     continue;
                 }
                 let t = line.trim();
-                if t.starts_with("//") {
+                if t.starts_with("//") || t.contains("shuttle::thread_local") {
                     continue;
                 }
                 for p in pats {
